@@ -97,6 +97,7 @@ func init() {
 		rule: "whole-tensor Sum/Max/Min/Avg/Mean/Var/Std for every shape of the grid and the seven Along(dim) forms for every dim of every shape (quick: Shapes(3,2) U Shapes(2,3) + 3 high-rank shapes; thorough: Shapes(4,3) U Shapes(6,2)); invalid dims must be rejected; assignments include ties, zeros, single-element fibres and magnitudes 1e+-150; distinct = distinct (statistic, shape, dim)",
 	}))
 	register("C06", "exploration", symCheck(symSpec{
+		bigFam: "c06",
 		module: "Gen_C06", partsQ: 4, partsT: 16, assignQ: 1, assignT: 2, timeoutT: 40 * time.Minute,
 		rule:        "one case per (data-movement operation, shape, argument): Slice / Patch with every combination of explicit / omitted / <<0,0>> / whole ranges, block size and position (full product up to rank 2 (3 thorough), one dimension varied above), Concat (every dim, 2 and 3 operands of differing sizes), Reshape (every factorisation), Flatten/Squeeze/UnSqueeze (every dim), Broadcast (every target in the expansion grid), Full/Zeros/Ones/Eye, patch-slice and concat-slice round trips; every tensor is read back through At at every multi-index and compared exactly with iota inputs; distinct = distinct (op, shapes, argument)",
 		assumptions: []string{"element values are the row-major positions (the operations are value-parametric), compared exactly"},
